@@ -31,7 +31,7 @@ EXPLANATION = (
     'occur in mirrored white/black pairs.'
     ' (6) PGN scanner look-ahead: every character read is appended, matched as a delimiter, skipped as white space or handed back before the next read / the return.'
     ' Added later; the UCI promotion suffix of both printers is obtained by interpreting them per promotion code (fall-through and table look-up forms included).'
-    ' Added later; (8) in every token-reading loop of the PGN parser the arm that recognises END has no path back to the loop header. (9) the castling text of the short / long form is printed for exactly the king\'s two-square moves from home (all 64 x 64 x 12 from/to/piece). (10) readFEN bounds the men per side by 16, which the unchecked 256-entry MoveList relies on - found and fixed defect D18. (11) the disambiguation scan of moveToString visits every index of the legal-move list (sizes 0..8 evaluated).')
+    ' Added later; (8) in every token-reading loop of the PGN parser the arm that recognises END has no path back to the loop header. (9) the castling text of the short / long form is printed for exactly the king\'s two-square moves from home (all 64 x 64 x 12 from/to/piece). (10) readFEN bounds the men per side by 16, which the unchecked 256-entry MoveList relies on - found and fixed defect D18. (11) the disambiguation scan of moveToString visits every index of the legal-move list (sizes 0..8 evaluated). (3, extended) an external half-move clock is bounded above as well as below before it is stored - found and fixed defect D21.')
 UNDECIDED = ('uniqueness of short move forms, round-trip equality of values, robustness against every byte string (needs execution); '
              'PGN tree round trip beyond the scanner look-ahead discipline of clause 6.')
 ASSUMPTIONS = ['char is an 8-bit type; the piece enumerators are those of Piece::Type',
@@ -414,7 +414,15 @@ def c3_external_ints(fb, rep):
                 g = G.guards_of(f, set(f.blocks), b)
                 val = lambda v: (lambda t: ('v', v) if t.get('k') == 'var' and t.get('id') == a.get('id') else None)
                 ok = G.excluded_under(f, b, val(-1)) and G.excluded_under(f, b, val(-200000)) and not any(G.excluded_under(f, b, val(v_)) for v_ in (0, 1, 50, 99, 100, 150))
-                why = 'external value; guards %s' % g
+                # ... and far from the top of its type: every reversible move increments the clock, a stored INT_MAX wraps to
+                # INT_MIN with the next move and then indexes the key table from below
+                top = G.excluded_under(f, b, val(2147483647)) and G.excluded_under(f, b, val(2147483647 - 5000))
+                if ok and not top:
+                    ok = False
+                    why_top = '; not bounded above (a clock of INT_MAX is stored and overflows with the next reversible move)'
+                else:
+                    why_top = ''
+                why = 'external value; guards %s%s' % (g, why_top)
         rep.ob(clause, 'K12 range', '%s: half-move clock writer #%d passes a value known to be >= 0' % (f.sname, k + 1), ok, R.site(f, e), why, f.sname)
     # other writers of the field
     wr = set()
